@@ -10,6 +10,7 @@ from common import Cmat, Cx, R, Rmat, cfl, fl, flmat, max_rel_err
 from common import wiring_pre_build as pre_build  # noqa: E402,F401
 
 LEAN_MODULES = ["PyomaVerif.Props.C01", "PyomaVerif.Props.WiringRun", "PyomaVerif.Props.C01C11", "PyomaVerif.Props.C01E2E", "PyomaVerif.Props.C01Stored", "PyomaVerif.Props.WiringCalls", "PyomaVerif.Props.C01Table", "PyomaVerif.Props.C03Table", "PyomaVerif.Props.C01TableLegacy", "PyomaVerif.Props.C01Excite", "PyomaVerif.Props.C01Args", "PyomaVerif.Mutants.C01Args"]
+LEAN_MODULES = ["PyomaVerif.Props.C01", "PyomaVerif.Props.WiringRun", "PyomaVerif.Props.C01C11", "PyomaVerif.Props.C01E2E", "PyomaVerif.Props.C01Stored", "PyomaVerif.Props.WiringCalls", "PyomaVerif.Props.C01Table", "PyomaVerif.Props.C03Table", "PyomaVerif.Props.C01TableLegacy", "PyomaVerif.Props.C01Excite", "PyomaVerif.Props.C01StoredTable"]
 THEOREMS = [
     # the exact sequence of core-routine calls of the run()/mpe() body and the exact set of parameters bound at each (regenerated call table)
     "PV.WiringCalls.C12_ssidat_run_calls",
@@ -68,6 +69,13 @@ THEOREMS = [
     "PV.C01Stored.C01_stored_neutral",
     "PV.C01Stored.C01_stored_cov",
     "PV.C01Stored.C01_stored_dat",
+    # pole table JOINED with the stored tables: the unfiltered solution of the run is rawOf (ssiPoles …), no OrderFilled hypothesis
+    "PV.Poles.ssiPoles_raw",
+    "PV.Poles.ssiPoles_same_pattern",
+    "PV.C01StoredTable.C09_table_survives",
+    "PV.C01StoredTable.C01_stored_of_table",
+    "PV.C01StoredTable.C01_e2e_cov_stored_table",
+    "PV.C01StoredTable.C01_e2e_dat_stored_table",
     "PV.C01Stored.Ex.stored",
     "PV.C09Stored.C09_raw_survives",
     "PV.C09Stored.C09_neutral_identity",
